@@ -1,0 +1,15 @@
+//go:build verif
+// +build verif
+
+package streams
+
+// VerifHook, when set, is called immediately before every atomic operation of the
+// allocator with the name of the point. It exists only in builds with the "verif"
+// tag; the deterministic simulator uses it to interleave callers step by step.
+var VerifHook func(point string)
+
+func verifYield(point string) {
+	if h := VerifHook; h != nil {
+		h(point)
+	}
+}
